@@ -1037,6 +1037,9 @@ equation left on the target before it distributes the new per-index equations.  
 only ADD keys: a 3-vector assigned a 2-vector keeps a third, stale entry. -/
 structure TgtCfg where
   resetTarget : Bool
+  /-- the reset also happens when the target already has the LAYOUT of the new equation (same number of rows and
+  columns, same named/indexed flag) — a reset conditioned on the layout alone keeps stale index NAMES -/
+  resetSameLayout : Bool
 deriving DecidableEq, Repr, Inhabited
 
 /-- the description an arrayed result gives a FRESH target -/
@@ -1045,15 +1048,21 @@ def Result.descr (nm : String) : Result → Elem
   | .vector named es => { name := nm, keys := es.map (·.1), inner := [], named := named }
   | .matrix rows => Elem.mat nm rows.length (rows.headD []).length
 
+/-- `_has_layout`: the target already consists of as many rows / columns as the result, with the same kind of index -/
+def sameLayout (old : Elem) (r : Result) : Bool :=
+  let d := r.descr old.name
+  old.arrayed && old.named == d.named && old.keys.length == d.keys.length && old.inner.length == d.inner.length
+
 /-- the description of the target `old` after it was assigned an equation with result `r` -/
 def targetAfter (c : TgtCfg) (old : Elem) (r : Result) : Elem :=
+  let doReset := c.resetTarget && (c.resetSameLayout || !sameLayout old r)
   match r with
   | .scalar _ => old                        -- a scalar equation does not touch the sub-elements
   | .vector named es =>
-    if c.resetTarget then r.descr old.name
+    if doReset then r.descr old.name
     else { old with keys := addKeys old.keys (es.map (·.1)), named := old.named || named }
   | .matrix rows =>
-    if c.resetTarget then r.descr old.name
+    if doReset then r.descr old.name
     else { old with keys := addKeys old.keys (rangeKeys rows.length),
                     inner := addKeys old.inner (rangeKeys (rows.headD []).length) }
 
